@@ -11,15 +11,22 @@ from . import c01_ext as cx
 LEVEL = "proof"
 MANIFEST_ENTRY = {
     "category": "proof",
-    "text": "Lean 4 theorem `roundtrip` (structural induction over the whole value universe, any depth/width/mix): decode(encode v) = canon v for every well-formed object graph of the executable model of serialize.py (dispatch chain, ndarray fast path with NumPy promotion, empty/0-d arrays, path flags, container and object restoration loops), plus the fixed point of a second save/load (`roundtrip_fixed`: canon is idempotent and preserves well-formedness) and attribute-name exactness (`attr_names_exact`). The model is tied to the code on every run by differential round trips of generated graphs through the real save()/load() (zip and dir stores, all compression levels, str/Path), and the property's own equality is evaluated on the real results as the failing-input search.",
-    "note": "Trusted: Lean kernel + standard axioms; hand model validated by sampled correspondence only; torch.save/dill payloads are opaque tokens (fidelity observed via dtype/shape/values/requires_grad fingerprints), zarr/blosc/JSON/zipfile return what was written, sequence elements are positional children in the value model; the str(i)/int(k) key layer is modelled separately (Model/SeqKeys.lean), proved to be the identity on every list in every storage order (seqDecode_keyed_perm) and compared with the real container code directly.",
-    "technique": "Lean 4 proof (structural induction on nested value/tree types) + model-vs-implementation correspondence",
+    "text": "Lean 4 theorem `roundtrip` (structural induction over the whole value universe, any depth/width/mix): decode(encode v) = canon v for every well-formed object graph of the executable model of serialize.py (ndarray fast path with NumPy promotion, empty/0-d arrays, path flags, container and object restoration loops), plus the fixed point of a second save/load (`roundtrip_fixed`) and attribute-name exactness (`attr_names_exact`). The type-dispatch chain of _serialize_value is translated mechanically from the current source on every run (harness/translator/serdispatch2lean.py -> Generated/SerializeDispatch.lean) and proved equal to the hand model for every combination of the 30 isinstance/hasattr facts (`generated_dispatch_eq_model`); every supported value kind reaches its own branch (`generated_dispatch_kind`), the chain is first-match (`dispatch_first_match`), the kinds for which the order decides are listed (`order_decides`), and what `encode` stores shows that branch (`encode_follows_dispatch`). The argument checks of save() are modelled check by check (`resolveSave_ok_iff`: accepted exactly for level None/0..9, store zip or dir with an extension-less path, target absent or mode 'o'; `resolveSave_level_independent`), and the round trip and the fixed point are proved over every HISTORY of save / load / print_file calls on shared targets, rejected and raising calls included (`roundtrip_history`, `fixed_point_history`, `raised_call_is_noop`, `hstep_frame`). The model is tied to the code on every run by differential round trips of generated graphs through the real save()/load() (zip and dir stores, all compression levels, str/Path, keyword and positional calls), by call histories on shared targets (save, read, overwrite with another graph, rejected / raising saves, in-memory mutation of sources and of loaded objects), by the argument-check grid, by the facts and the branch of real objects of every kind, and the property's own equality is evaluated on the real results as the failing-input search.",
+    "note": "Trusted: Lean kernel + standard axioms; hand model validated by sampled correspondence only; the dispatch translator (~200 lines, cross-checked by the dispatch stream on real objects); the table of facts per value kind (`featOf`) is measured on real objects on every run; torch.save/dill payloads are opaque tokens (fidelity observed via dtype/shape/values/requires_grad fingerprints), zarr/blosc/JSON/zipfile return what was written; in the history model a target holds what the last save that returned normally wrote (staging + install: C08's theorems), so store / compression / path-type independence is proved only as far as `encode` and `resolveSave` do not depend on them and is otherwise MEASURED (every graph on both stores, random level and path type, thorough tier all 11 levels); sequence elements are positional children in the value model; the str(i)/int(k) key layer is modelled separately (Model/SeqKeys.lean), proved to be the identity on every list in every storage order (seqDecode_keyed_perm) and compared with the real container code directly. Recorded findings: numeric-seq-int-float-precision, dict-key-not-a-zarr-node-name, ndarray-non-native-byteorder.",
+    "technique": "Lean 4 proof (structural induction on nested value/tree types; invariants over call histories) + source-to-Lean translation of the dispatch chain + model-vs-implementation correspondence",
 }
-RULE = ("type-directed random object graphs (every value kind reachable, depth<=4, width<=6) saved with a random store/compression/"
-        "path-type pair and reloaded; one evaluation = one save+load of one graph under one configuration; distinct non-trivial = "
-        "distinct (sorted multiset of value kinds, max depth) with depth >= 2")
-TRUSTED = ["torch.save / pickle / dill fidelity (observed through content fingerprints)", "zarr-python, blosc, JSON attribute encoding, zipfile"]
-ASSUMPTIONS = ["dict/object entry order and set order are not compared (zarr lists arrays/groups in directory order)"]
+RULE = ("type-directed random object graphs (every value kind reachable, depth<=4, width<=6, plus aliased members, exact duplicates, "
+        "one-element sequences, integers beyond int64, index-/metadata-like dict keys, empty objects) saved with a random "
+        "store/compression/path-type pair and reloaded; one evaluation = one save+load of one graph under one configuration, one public "
+        "call of a history, one argument combination of save(), or one value of the dispatch / numeric-scalar streams; distinct "
+        "non-trivial = distinct (sorted multiset of value kinds, max depth) with depth >= 2, distinct (stores, op kinds, length) of a "
+        "history, distinct (target name, store, mode, outcome, pre-state) of an argument case, distinct (kind, branch) of the dispatch stream")
+TRUSTED = ["torch.save / pickle / dill fidelity (observed through content fingerprints)", "zarr-python, blosc, JSON attribute encoding, zipfile",
+           "harness/translator/serdispatch2lean.py (Python ast -> Lean if-chain; branch named by what its body writes)",
+           "os.path.exists / splitext / rename semantics behind the history model (a target holds what the last normally returning save wrote)"]
+ASSUMPTIONS = ["dict/object entry order and set order are not compared (zarr lists arrays/groups in directory order)",
+               "after a save that raised part-way the target is not read until it is saved again (its content is C08's clause)",
+               "dtype classes outside the generator (datetime64, structured, longdouble, object) are not decided"]
 EXPLANATION = "see MANIFEST level text"
 
 
@@ -116,7 +123,7 @@ def find(spec, path):
 
 def check_case(ctx, drv, recipe, cfgs, idx, streams=("corr", "pred")):
     import io, contextlib
-    builder = sc.Builder(None)
+    builder = cx.BuilderX(None)
     obj = builder.build(recipe)
     spec = sc.observe(obj)
     case = {"recipe": recipe, "cfgs": cfgs}
@@ -304,6 +311,24 @@ def seqkeys_stream(ctx, drv):
         ctx.dist[f"seqkeys:{mode}"] += 1
 
 
+def _guard(ctx, name, fn):
+    """run one stream; an exception that escapes from the REAL code (a frame under <repo>/src/quantem) is
+    recorded as a broken tie of that stream and the remaining streams still run, so that a failing input can
+    be exhibited; any other exception is a harness error and propagates"""
+    import traceback
+    try:
+        fn()
+    except Exception as e:  # noqa
+        repo_src = os.path.join(os.path.realpath(os.environ.get("QVERIF_REPO", "/repo")), "src", "quantem")
+        frames = traceback.extract_tb(e.__traceback__)
+        real = [f for f in frames if os.path.realpath(f.filename).startswith(repo_src)]
+        if not real:
+            raise
+        ctx.disagree("exception-in-real-code", {"stream": name, "raised_at": f"{os.path.basename(real[-1].filename)}:{real[-1].lineno} in {real[-1].name}"},
+                     "no exception (the stream completes on the unchanged tree)", f"{type(e).__name__}: {str(e)[:200]}",
+                     note=f"the implementation raised inside stream '{name}'")
+
+
 def run(ctx):
     from qv.driver import Driver
     drv = Driver("C01")
@@ -317,11 +342,12 @@ def run(ctx):
                 check_case(ctx, drv, c["recipe"], c["cfgs"], f"c{idx}")
                 idx += 1
         signature_tie(ctx)
-        seqkeys_stream(ctx, drv)
-        cx.numeric_stream(ctx, drv)
-        cx.dispatch_stream(ctx, drv)
-        cx.resolve_stream(ctx, drv)
-        cx.history_stream(ctx, drv)
+        _guard(ctx, "seqkeys", lambda: seqkeys_stream(ctx, drv))
+        _guard(ctx, "finding-probes", lambda: cx.finding_probes(ctx))
+        _guard(ctx, "numeric-scalar", lambda: cx.numeric_stream(ctx, drv))
+        _guard(ctx, "dispatch", lambda: cx.dispatch_stream(ctx, drv))
+        _guard(ctx, "save-args", lambda: cx.resolve_stream(ctx, drv))
+        _guard(ctx, "history", lambda: cx.history_stream(ctx, drv))
         # fixed probe of a recorded finding (int/float promotion in the ndarray fast path)
         probe = ["obj", "SA", [["a", ["list", [["scalar", ["int", str(2 ** 62 + 1)]], ["scalar", sc.S(0.5)]]]]]]
         check_case(ctx, drv, probe, [gen_cfg(ctx.rng.fork(999), "zip")], "probe")
@@ -329,7 +355,7 @@ def run(ctx):
         for i in range(n):
             rng = ctx.rng.fork(i)
             allow = {"rng_in_container": True, "fallback_in_container": True, "npcomplex": True}
-            g = sc.Gen(rng, allow)
+            g = cx.GenX(rng, allow)
             recipe = g.root(rng.weighted([(1, 2), (2, 4), (3, 3), (4, 1)]))
             cfgs = [gen_cfg(rng, "zip"), gen_cfg(rng, "dir")]
             if ctx.thorough() and i % 10 == 0:
